@@ -68,7 +68,7 @@ struct Stats {
 }
 
 #[allow(clippy::too_many_arguments)]
-fn ev_evd<T: Width>(out: &mut Out, stats: &mut Stats, run: i64, fam: &str, b: &IM, bal: &[i32], se: i32, sym: bool) -> bool {
+fn ev_evd<T: Width>(out: &mut Out, stats: &mut Stats, run: i64, fam: &str, b: &IM, bal: &[i32], se: i32, sym: bool) {
     let n = b.len();
     let mut v = Vec::with_capacity(n * n);
     for i in 0..n {
@@ -158,7 +158,6 @@ fn ev_evd<T: Width>(out: &mut Out, stats: &mut Stats, run: i64, fam: &str, b: &I
     out.emit(json!({"run": run, "ev": "EVD", "sym": sym, "w": T::NAME, "se": se, "S": S, "fam": fam, "n": n,
                     "A": b, "bal": bal, "status": status, "msg": msg, "fin": fin, "inr": inr,
                     "out": if ok { o } else { json!({}) }}));
-    status == "panic" && msg.contains("attempt to add with overflow")
 }
 
 // ---------------------------------------------------------------------------------------------
@@ -462,22 +461,10 @@ fn one(out: &mut Out, stats: &mut Stats, rng: &mut StdRng, run: i64, fam: &str, 
        w32: Option<bool>, se: Option<i32>) {
     let se = se.unwrap_or_else(|| pick_se(rng));
     let w32 = w32.unwrap_or_else(|| rng.gen_bool(0.4));
-    let overflow = if w32 {
-        ev_evd::<f32>(out, stats, run, fam, a, bal, se, sym)
+    if w32 {
+        ev_evd::<f32>(out, stats, run, fam, a, bal, se, sym);
     } else {
-        ev_evd::<f64>(out, stats, run, fam, a, bal, se, sym)
-    };
-    if overflow && !fam.ends_with("~neg") {
-        // the call died in the index arithmetic of sort() (known finding): the input yields no
-        // observable.  Give the same structure a second chance as the separate input -A, whose
-        // eigenvalues are met in the opposite order.
-        let neg: IM = a.iter().map(|r| r.iter().map(|v| -v).collect()).collect();
-        let name = format!("{}~neg", fam);
-        if w32 {
-            ev_evd::<f32>(out, stats, run, &name, &neg, bal, se, sym);
-        } else {
-            ev_evd::<f64>(out, stats, run, &name, &neg, bal, se, sym);
-        }
+        ev_evd::<f64>(out, stats, run, fam, a, bal, se, sym);
     }
 }
 
@@ -603,7 +590,7 @@ fn replay(inp: &str, path: &str) {
             ev_evd::<f32>(&mut out, &mut stats, run, &fam, &a, &bal, se, sym);
         } else {
             ev_evd::<f64>(&mut out, &mut stats, run, &fam, &a, &bal, se, sym);
-        };
+        }
     }
     let n = out.finish();
     println!("{}", json!({"events": n}));
